@@ -4,7 +4,7 @@
    number of concurrent Reload()/Stop() callers: [reach P s] = "s is reached by some label list". *)
 From Coq Require Import List NArith Bool.
 From GS Require Import Errs LTS Composite CompositeMon CompositeBase CompositeC10 CompositeC11
-     CompositeLocks CompositeLive CompositeC09 CompositeProgress CompositeProto CompositeC10b
+     CompositeLocks CompositeLive CompositeC09 CompositeProgress CompositeProto CompositeC10b CompositeMeasure CompositeC10c CompositeTrace CompositeLink2
      CompositeMonLink.
 Import ListNotations.
 
@@ -56,8 +56,9 @@ Theorem C10_failed_only_if : forall P s r x, reach P s ->
   exists e, took s = Some e /\ exists y, e = Wrap y /\ is_cancel y = false.
 Proof. exact failed_only_if_took. Qed.
 
-(* C10 liveness (as no-stuck-state; repaired composite and lifecycle, children that behave like the
-   bundled runnables): once Run() has taken a failure it is never stuck before it has returned - in
+(* C10 liveness (as no-stuck-state; repaired composite and lifecycle, [good_children]: every child's
+   Run returns once signalled or cancelled - or earlier, with any result, which is how a child fails;
+   only a Run that never returns is excluded): once Run() has taken a failure it is never stuck before it has returned - in
    every reachable state of every guarded schedule some non-environment label is enabled *)
 Theorem C10_run_returns : forall P s e,
   fix_c09 P = true -> fix_lc P = true -> good_pool P -> good_children P ->
@@ -155,3 +156,221 @@ Example C10_nonvacuous : exists s,
   result_of (runt s) = Some (Some (fail_result (Wrap (Wrap (Join [Errs.Leaf 5; Errs.Leaf 6]%N))))) /\
   classify (Some (fail_result (Wrap (Wrap (Join [Errs.Leaf 5; Errs.Leaf 6]%N))))) = mkCls false true [5; 6]%N false.
 Proof. eexists. split; [vm_compute; reflexivity|]. vm_compute. repeat split. Qed.
+
+(* C10_run_returns_measure (termination measure, proofs/CompositeMeasure.v; the label classes are
+   described in props/C09.v): after Run() took the failure e, an execution of system steps that
+   cannot be extended by a system step has at most [mu s] steps, and - unless the configuration
+   callback of a Reload() has been called and has not returned - it ends with Run() returned with
+   "ErrRunnableFailed: e" and every Stop()/Reload() call returned *)
+Theorem C10_run_returns_measure : forall P s e ls s',
+  fix_c09 P = true -> fix_lc P = true -> good_pool P -> good_children P ->
+  greach P s -> took s = Some e ->
+  Forall (fun l => is_system l = true) ls ->
+  run (step P) s ls = Some s' ->
+  (forall l s'', step P s' l = Some s'' -> is_system l = false) ->
+  length ls <= mu s /\
+  (cb_out s' = true \/
+   (runt s' = TDone (Some (fail_result e)) /\ wraps (fail_result e) id_runnable_failed = true /\
+    all_returned s')).
+Proof. exact run_returns_measure. Qed.
+
+Print Assumptions C10_run_returns_measure.
+
+(* non-vacuity (all hypotheses hold: child 0 returns on signal, child 1 may return at any time and
+   fails): the failure is taken after 11 labels; the remaining 13 labels are system steps, the
+   measure goes from 15 to 0 and Run() has returned the wrapped failure *)
+Definition m_pool : params :=
+  mkParams [mkSpec 0 UntilRunDone OnSignal RWC; mkSpec 1 UntilRunDone Free RWC] true true true true.
+Definition m_sched : list label :=
+  [LRunCall; LRunBegin; LBootLock ORun; LCb ORun (CbSome [(0, 0); (1, 0)]%N); LBootLaunch ORun; LToRunning;
+   LKRun 0 0%N; LKRun 1 1%N;
+   LKExit 1 1%N (Some (Errs.Leaf 7%N)); LKSend 1; LSelErr;
+   LTearLock; LStopBegin ORun; LWCall 0 1%N; LWCall 1 0%N; LWUnblock 0; LWRet 0 1%N;
+   LKExit 0 0%N None; LWUnblock 1; LWRet 1 0%N; LStopCancel ORun; LStopJoin ORun; LRunExit;
+   LRunRet (Some (fail_result (Wrap (Errs.Leaf 7%N))))].
+
+Example C10_measure_nonvacuous : exists s s',
+  run (step m_pool) init (firstn 11 m_sched) = Some s /\
+  run (step m_pool) s (skipn 11 m_sched) = Some s' /\
+  forallb is_system (skipn 11 m_sched) = true /\ length (skipn 11 m_sched) = 13 /\
+  good_pool m_pool /\ good_children m_pool /\ Forall (good_label m_pool) m_sched /\
+  took s = Some (Wrap (Errs.Leaf 7%N)) /\
+  mu s = 15 /\ mu s' = 0 /\ cb_out s' = false /\
+  runt s' = TDone (Some (fail_result (Wrap (Errs.Leaf 7%N)))).
+Proof.
+  eexists. eexists. split; [vm_compute; reflexivity|]. split; [vm_compute; reflexivity|].
+  split; [reflexivity|]. split; [reflexivity|].
+  split; [repeat constructor; cbn; intuition discriminate|].
+  split; [intros c [<-|[<-|[]]]; [left|right]; reflexivity|].
+  split; [repeat constructor|].
+  vm_compute. repeat split.
+Qed.
+
+(* all hypotheses of C10_run_returns at once (the state after the first 11 labels of m_sched: child 1
+   has failed, Run() has taken the failure and is about to lock reloadMu) *)
+Example C10_run_returns_nonvacuous : exists s,
+  fix_c09 m_pool = true /\ fix_lc m_pool = true /\ good_pool m_pool /\ good_children m_pool /\
+  greach m_pool s /\ took s = Some (Wrap (Errs.Leaf 7%N)) /\ (forall r, runt s <> TDone r) /\
+  runt s = TTearLock.
+Proof.
+  eexists. split; [reflexivity|]. split; [reflexivity|].
+  split; [repeat constructor; cbn; intuition discriminate|].
+  split; [intros c [<-|[<-|[]]]; [left|right]; reflexivity|].
+  split; [exists (firstn 11 m_sched); split; [repeat constructor|vm_compute; reflexivity]|].
+  split; [reflexivity|]. split; [discriminate|reflexivity].
+Qed.
+
+(* ---------------------------------------------------------------------------------------------
+   C10's main implication, in the form that is true (proofs/CompositeC10c.v).
+   "If any child returns a non-cancellation error, Run() returns an error wrapping
+   ErrRunnableFailed" holds of the code (and of the model) only with two provisos, both real in
+   runner.go: (a) if Stop() or the cancellation of the context wins Run()'s select although a failure
+   is queued, Run() tears down and returns nil, the failure stays in serverErrors; (b) if Run() fails
+   internally (a state transition is refused) it returns the internal error.  A report DROPPED on a
+   full channel is not an exception: the channel was then full of reported failures and Run() takes
+   one of them (the result wraps another child's error).
+   --------------------------------------------------------------------------------------------- *)
+
+(* safety half, every schedule of every variant: a child failed and Run() has returned r *)
+Theorem C10_failure_outcome : forall P s r,
+  reach P s -> fail_sent s = true -> runt s = TDone r ->
+  (exists e, took s = Some e /\ (exists x, e = Wrap x /\ is_cancel x = false) /\
+             r = Some (fail_result e) /\ wraps (fail_result e) id_runnable_failed = true /\
+             (forall id, wraps e id = true -> wraps (fail_result e) id = true))
+  \/
+  (took s = None /\ errq s <> [] /\
+   ((r = None /\ (pctx s = true \/ lc_stopped s = true)) \/ r = internal_err)).
+Proof. exact failure_outcome. Qed.
+
+(* liveness half (repaired composite and lifecycle, good_children): in a state in which no system
+   step and no callback return is possible and a child's Run has returned a non-cancellation error
+   (reported already, or the goroutine is about to report it), the report was made and Run() and every
+   Stop()/Reload() call have returned *)
+Theorem C10_failed_child_run_returns : forall P s,
+  fix_c09 P = true -> fix_lc P = true -> good_pool P -> good_children P ->
+  greach P s ->
+  (fail_sent s = true \/
+   exists i k x, nth_error (kids s) i = Some k /\ k_pc k = KExited (Some x) /\ is_cancel x = false) ->
+  ~ (exists l s', is_system l || is_cb l = true /\ step P s l = Some s') ->
+  fail_sent s = true /\
+  (exists r, runt s = TDone r) /\
+  (forall k p, nth_error (stoppers s) k = Some p -> p = SDone) /\
+  (forall k r, nth_error (reloaders s) k = Some r -> r_pc r = RDone).
+Proof. exact failed_child_run_returns. Qed.
+
+(* both halves *)
+Theorem C10_failure_propagates_or_preempted : forall P s,
+  fix_c09 P = true -> fix_lc P = true -> good_pool P -> good_children P ->
+  greach P s -> child_failed s -> ~ prog P s ->
+  exists r, runt s = TDone r /\ (took_outcome s r \/ preempted_outcome s r).
+Proof. exact failure_propagates_or_preempted. Qed.
+
+Print Assumptions C10_failure_outcome.
+Print Assumptions C10_failed_child_run_returns.
+Print Assumptions C10_failure_propagates_or_preempted.
+
+(* all hypotheses of C10_failed_child_run_returns / C10_failure_propagates_or_preempted at once: the
+   final state of m_sched (measure 0, no callback outstanding, hence no step possible), first outcome *)
+Example C10_main_nonvacuous : exists s,
+  fix_c09 m_pool = true /\ fix_lc m_pool = true /\ good_pool m_pool /\ good_children m_pool /\
+  greach m_pool s /\ child_failed s /\ ~ prog m_pool s /\
+  runt s = TDone (Some (fail_result (Wrap (Errs.Leaf 7%N)))) /\
+  took_outcome s (Some (fail_result (Wrap (Errs.Leaf 7%N)))).
+Proof.
+  assert (Hg : exists s, run (step m_pool) init m_sched = Some s) by (eexists; vm_compute; reflexivity).
+  destruct Hg as [s Hs]. exists s.
+  assert (Hr : greach m_pool s) by (exists m_sched; split; [repeat constructor|exact Hs]).
+  vm_compute in Hs. injection Hs as <-.
+  split; [reflexivity|]. split; [reflexivity|].
+  split; [repeat constructor; cbn; intuition discriminate|].
+  split; [intros c [<-|[<-|[]]]; [left|right]; reflexivity|].
+  split; [exact Hr|]. split; [left; reflexivity|].
+  split; [apply mu_zero_stuck; [exact (greach_reach _ _ Hr)|reflexivity|reflexivity]|].
+  split; [reflexivity|].
+  eexists. split; [reflexivity|]. split; [eexists; split; reflexivity|]. split; [reflexivity|].
+  split; [reflexivity|]. intros id H. cbn in *. rewrite H. now rewrite !orb_true_r.
+Qed.
+
+(* the proviso (a) is real in the model (as in the code): child 1 fails, its report is queued, then
+   Stop() wins the select; Run() returns nil, the failure is still in serverErrors *)
+Definition p_sched : list label :=
+  firstn 10 m_sched ++
+  [LStopApi 0; LSSignal 0; LSelStop; LTransIf;
+   LTearLock; LStopBegin ORun; LWCall 0 1%N; LWCall 1 0%N; LWUnblock 0; LWRet 0 1%N;
+   LKExit 0 0%N None; LWUnblock 1; LWRet 1 0%N; LStopCancel ORun; LStopJoin ORun; LToStopped; LRunExit;
+   LRunRet None; LSRet 0].
+
+Example C10_preempted_nonvacuous : exists s,
+  fix_c09 m_pool = true /\ fix_lc m_pool = true /\ good_pool m_pool /\ good_children m_pool /\
+  greach m_pool s /\ child_failed s /\ ~ prog m_pool s /\
+  runt s = TDone None /\ preempted_outcome s None /\ errq s = [Wrap (Errs.Leaf 7%N)] /\
+  lc_stopped s = true.
+Proof.
+  assert (Hg : exists s, run (step m_pool) init p_sched = Some s) by (eexists; vm_compute; reflexivity).
+  destruct Hg as [s Hs]. exists s.
+  assert (Hr : greach m_pool s) by (exists p_sched; split; [repeat constructor|exact Hs]).
+  vm_compute in Hs. injection Hs as <-.
+  split; [reflexivity|]. split; [reflexivity|].
+  split; [repeat constructor; cbn; intuition discriminate|].
+  split; [intros c [<-|[<-|[]]]; [left|right]; reflexivity|].
+  split; [exact Hr|]. split; [left; reflexivity|].
+  split; [apply mu_zero_stuck; [exact (greach_reach _ _ Hr)|reflexivity|reflexivity]|].
+  split; [reflexivity|].
+  split; [|split; reflexivity].
+  split; [reflexivity|]. split; [discriminate|]. left. split; [reflexivity|]. right. reflexivity.
+Qed.
+
+(* ---------------------------------------------------------------------------------------------
+   Monitor link for c10-clause2 ("a child failed while Running - no Stop()/cancel before - and Run()
+   never returned").  Like every clause that demands that something eventually happens it is FALSE of
+   prefixes (C10_monitor_clause2_prefix_witness); on every MAXIMAL schedule (final state allows no
+   system step and no callback return - the harness' final quiescence) the monitor never answers 2.
+   --------------------------------------------------------------------------------------------- *)
+Theorem C10_monitor_clause2_maximal : forall P ls s,
+  fix_c09 P = true -> fix_lc P = true -> good_pool P -> good_children P ->
+  Forall (good_label P) ls -> run (step P) init ls = Some s -> ~ prog P s ->
+  C10_holdsb P (obs_trace obs ls) <> 2%N.
+Proof. exact c10_clause2_link. Qed.
+
+(* the fact behind it: in a maximal schedule whose trace contains a failing child exit, Run()'s return
+   is in the trace *)
+Theorem C10_failed_exit_run_returns_in_trace : forall P ls s,
+  fix_c09 P = true -> fix_lc P = true -> good_pool P -> good_children P ->
+  Forall (good_label P) ls -> run (step P) init ls = Some s -> ~ prog P s ->
+  existsb is_fail_exit (obs_trace obs ls) = true ->
+  existsb is_run_ret (obs_trace obs ls) = true.
+Proof. exact maximal_failed_run_ret. Qed.
+
+Print Assumptions C10_monitor_clause2_maximal.
+Print Assumptions C10_failed_exit_run_returns_in_trace.
+
+(* all hypotheses at once (m_sched with a Running observation before the failure, so that the
+   monitor is armed): the schedule is maximal and the monitor holds *)
+Definition m_sched_obs : list label := firstn 8 m_sched ++ LState FRunning :: skipn 8 m_sched ++ [LState FError].
+
+Example C10_monitor_clause2_nonvacuous : exists s,
+  fix_c09 m_pool = true /\ fix_lc m_pool = true /\ good_pool m_pool /\ good_children m_pool /\
+  Forall (good_label m_pool) m_sched_obs /\ run (step m_pool) init m_sched_obs = Some s /\
+  ~ prog m_pool s /\
+  existsb is_fail_exit (obs_trace obs m_sched_obs) = true /\
+  existsb (is_state FRunning) (obs_trace obs (firstn 9 m_sched_obs)) = true /\
+  C10_holdsb m_pool (obs_trace obs m_sched_obs) = 0%N.
+Proof.
+  assert (Hg : exists s, run (step m_pool) init m_sched_obs = Some s) by (eexists; vm_compute; reflexivity).
+  destruct Hg as [s Hs]. exists s.
+  assert (Hr : reach m_pool s) by (exists m_sched_obs; exact Hs).
+  split; [reflexivity|]. split; [reflexivity|].
+  split; [repeat constructor; cbn; intuition discriminate|].
+  split; [intros c [<-|[<-|[]]]; [left|right]; reflexivity|].
+  split; [repeat constructor|]. split; [exact Hs|].
+  vm_compute in Hs. injection Hs as <-.
+  split; [apply mu_zero_stuck; [exact Hr|reflexivity|reflexivity]|].
+  vm_compute. auto.
+Qed.
+
+(* FINDING about the monitor (not about the code): on the prefix that ends with the failing exit the
+   clause fails - Run() has not returned YET *)
+Example C10_monitor_clause2_prefix_witness : exists s,
+  run (step m_pool) init (firstn 10 m_sched_obs) = Some s /\
+  C10_holdsb m_pool (obs_trace obs (firstn 10 m_sched_obs)) = 2%N.
+Proof. eexists. split; vm_compute; reflexivity. Qed.
